@@ -55,7 +55,7 @@ def plan(tier, seed):
         shards.append({"part": "scan", "lo": lo, "hi": lo + step, "n": n_entries, "tuple": 2,
                        "bound": f"trees<={n_entries} entries"})
     shards.append({"part": "feature", "tuple": 2, "bound": "feature trees"})
-    return {"shards": shards, "require_nonzero": ["convert:match", "convert:nomatch", "scan:partial", "scan:none", "regex", "glob", "module_path-below-root", "externals-included", "empty-exclusion-tuples"]}
+    return {"shards": shards, "require_nonzero": ["convert:match", "convert:nomatch", "scan:partial", "scan:none", "regex", "glob", "module_path-below-root", "externals-included", "empty-exclusion-tuples", "regex-with-empty-glob-tuple"]}
 
 
 # ------------------------------------------------------------------------- (a) conversion
@@ -230,6 +230,15 @@ def check_tree(base, entries, tuple_size, res, only=None):
                 if out_ext[0] != out[0] or (out[0] == "OK" and out_ext[1] != out[1]):
                     viol.append(("exclusion-differs-with-external-libraries-included", case_key, _obs(out), _obs(out_ext)))
                     continue
+                if kind == "regex":
+                    # "no glob exclusions" can be said with None or with an empty tuple: the regex exclusions apply alike
+                    out_empty = call(lambda: observed(scan(root, mp, exclusions=(), regex_exclusions=tuple(pats))))
+                    if res is not None:
+                        res.transitions += 1
+                        res.stats["regex-with-empty-glob-tuple"] += 1
+                    if out_empty[0] != out[0] or (out[0] == "OK" and out_empty[1] != out[1]):
+                        viol.append(("regex-exclusions-differ-with-empty-glob-tuple", case_key, _obs(out), _obs(out_empty)))
+                        continue
             if res is not None:
                 res.states += 1
                 res.transitions += 1
